@@ -472,6 +472,14 @@ func c04NoFloat(c *Ctx, barms map[int64]OpArm, rule string) {
 					isBridge = true
 				}
 			}
+			// the final exit written out in the entry point itself: applied to what the evaluator returned
+			if f == res && !allowed[key] {
+				for _, rt := range plainOrigins.Roots(call.Call.Args[0]) {
+					if rt.Kind == "call" && rt.Fn != nil && c.inModule(rt.Fn) && rt.Idx == 0 && len(rt.Path) == 0 {
+						isBridge = true
+					}
+				}
+			}
 			c.R.Check(rule, "Float64 in "+key, c.P.InstrPos(in), allowed[key] || isBridge, "Float64() is called inside evaluation (not at the final exit or in the host-call bridge): intermediate results would pass through binary floating point")
 		})
 	}
